@@ -8,6 +8,9 @@ CONSTANTS
   PartialAccept = TRUE
   ArriveWhole = TRUE
   CommitOnAccept = FALSE
+  MaxAbandon = 0
+  Vectored = FALSE
+  ReuseStalled = FALSE
 SPECIFICATION Spec
 INVARIANTS C05 Export
 CHECK_DEADLOCK FALSE
